@@ -15,4 +15,10 @@ Forbidden(s, f, inPair, class) ==
   \/ class \in {"two_pow_63", "u64_max"} /\ s = "Balance"
   \/ inPair /\ class \in {"zero", "close_tag", "q_minus_1", "other_valid", "noncanonical"}   \* lock = H(secret, index) breaks
 
+(* Key material has cross-field relations that every honest constructor establishes (public elements are the secret    *)
+(* scalars times the generators, the two halves of a public key share their logarithms): an encoding with ONE atom of a *)
+(* key replaced by another valid atom is not the encoding of any honestly produced key, and the properties do not say   *)
+(* whether a decoder accepts it - both outcomes are allowed there (never a panic).                                      *)
+Optional(s, f, inPair, class) == s \in {"SecretKey", "PublicKey"} /\ class \in {"other_valid", "q_minus_1", "close_tag"}
+
 =============================================================================
